@@ -37,6 +37,9 @@ CHECKS = {
  "C12": dict(technique="deterministic simulation (history-only): refinement of every replicate transition against the reference model + crystal-equality check",
              text="Objects with any term kinds (incl. impropers), extra columns and cells of every family (incl. arbitrarily rotated) are replicated with unequal factors; result compared with the model's images (read off in the result's own block order or matched by position), cell rows a*A,b*B,c*C, folded fractional coordinates reproduce the original crystal a*b*c times, original bit-identical, (1,1,1) identity.",
              note="Same caveat as C10.", ref="5/C12"),
+ "C06": dict(technique="deterministic simulation: chained replacement histories vs reference model (delete+extend), scripted RNG, tapped search, durable restart read by an independent reader",
+             text="Histories of 1-3 chained replacements on worlds whose structure carries typed terms inside/outside/across the occurrences and whose patterns carry all four term kinds, coefficient tables, pair coefficients, colliding labels, charges, groups; after each call the result must equal the reference model's extend+delete of the observed selection (each pattern term once per match with the pattern's coefficient text, retained atoms re-typed, bystander terms intact unless superseded forwards/backwards), and the final structure is written to the simulated disk and compared through an independent strict LAMMPS reader.",
+             note="Known finding (printed as KNOWN-FINDING, see known_findings.json): the documented CIF workflow (structure without pair table + parameterised pattern) misaligns the pair table. Inserted positions are C05's subject.", ref="5/C06"),
 }
 
 NOT_APPLICABLE = [
